@@ -788,6 +788,22 @@ def check_all(ctx, scs, want):
         toks2, marks = with_obs(r["log"], toks, pos)
         traces.append(toks2); mxs.append(sc["pool"].get("max", 10)); metas.append((toks, marks, problems))
         ctx.nontrivial(";".join(toks))
+    # Oracles that compare with a deadline (a scenario that did not finish, a shutdown / maintenance pass / census that was late) can be tripped
+    # by the load of the sixteen harness processes that run side by side: such a suspect is run again, alone, three times, and reported only if
+    # it is late again (what C20 does since its first false alarm).  Every other oracle failure is reported as it is.
+    timing = ("execution did not finish", "shutdown did not return promptly", "maintenance did not do its work", "still alive", "still open")
+    kept, rerun_n, rerun_confirmed = [], 0, 0
+    for sc, r, o in obad:
+        if all(any(t in x[1] for t in timing) for x in o):
+            rerun_n += 1
+            again = [oracle(sc, r2, want) for r2 in run_pool([sc, sc, sc], procs=1)]
+            if any(again):
+                rerun_confirmed += 1
+                kept.append((sc, r, o))
+        else:
+            kept.append((sc, r, o))
+    obad = kept
+    ctx.cov.setdefault("oracle", {})["deadline_suspects_run_again_alone"] = {"suspects": rerun_n, "late_again": rerun_confirmed}
     mres = model_replay(mxs, traces)
     for sc, r, m, meta, tr in zip(scs, res, mres, metas, traces):
         if meta is None:
